@@ -221,6 +221,69 @@ def ownership_sequences(maxlen):
     return n, out
 
 
+def hot_reload_case():
+    """an addon loaded from a script that hot-reloads a helper module; the helper is edited between two messages. Whatever the
+    addon machinery has to do before it asks the hooks, an unclaimed message goes out exactly once. Returns violation strings."""
+    import os
+    import sys
+    import tempfile
+    import textwrap
+    from pathlib import Path
+    from hippolyzer.lib.base.message.message import Message, Block
+    from hippolyzer.lib.base.network.transport import Direction
+    from hippolyzer.lib.base.message.udpdeserializer import UDPMessageDeserializer
+    from hippolyzer.lib.proxy.addons import AddonManager
+    out = []
+    tmp = tempfile.TemporaryDirectory(prefix="c07_hotreload_")
+    h = None
+    try:
+        helper = Path(tmp.name) / "c07_hr_helper.py"
+        script = Path(tmp.name) / "c07_hr_addon.py"
+        helper.write_text("GREETING = 'v1'\n")
+        script.write_text(textwrap.dedent("""
+            from hippolyzer.lib.proxy.addon_utils import BaseAddon
+            from hippolyzer.lib.proxy.addons import AddonManager
+            import c07_hr_helper
+            AddonManager.hot_reload(c07_hr_helper)
+            SEEN = []
+
+            class Watching(BaseAddon):
+                def handle_lludp_message(self, session, region, message):
+                    SEEN.append((c07_hr_helper.GREETING, message.name))
+
+            addons = [Watching()]
+        """))
+        h = Harness(addon_scripts=[str(script)])
+        h.open_circuits()
+        de = UDPMessageDeserializer()
+
+        def chat(pid):
+            m = Message("ChatFromViewer", Block("AgentData", AgentID=h.session.agent_id, SessionID=h.session.id),
+                        Block("ChatData", Message="m%d" % pid, Type=1, Channel=0), packet_id=pid, direction=Direction.OUT)
+            data, src = h.datagram(m)
+            exc, sent = h.feed(data, src)
+            n = sum(1 for _, _, p in sent if de.deserialize(p.data).name == "ChatFromViewer")
+            return exc, n
+        for pid, edit in ((1, False), (2, True), (3, False), (4, True), (5, False)):
+            if edit:
+                helper.write_text("GREETING = 'v%d'\n" % pid)
+                st = os.stat(helper)
+                os.utime(helper, (st.st_atime + 10 * pid, st.st_mtime + 10 * pid))
+            AddonManager.LAST_RELOAD = 0          # (the two-second back-off between reload checks has passed)
+            exc, n = chat(pid)
+            if exc is not None or n != 1:
+                out.append(f"unclaimed message #{pid} ({'right after the hot-reloaded helper was edited' if edit else 'no edit'}) was put on the wire "
+                           f"{n} times (exception {exc!r}); expected exactly once")
+    except Exception as e:  # noqa
+        out.append(f"hot-reload scenario: harness error {type(e).__name__}: {e}")
+    finally:
+        if h is not None:
+            h.close()
+        sys.modules.pop("c07_hr_helper", None)
+        tmp.cleanup()
+    return out
+
+
 def bounded_addons(reg, tier, seed):
     rng = random.Random(seed)
     evals, failures, seen, samples = 0, [], set(), []
@@ -252,6 +315,11 @@ def bounded_addons(reg, tier, seed):
                                      "input": {"behaviours": list(bs), "outgoing": outgoing, "reliable": reliable, "handler_raises": hr,
                                                "kind": kind},
                                      "observed": msg})
+    evals += 5
+    seen.add(("hot-reload",))
+    for msg in hot_reload_case()[:2]:
+        failures.append({"key": "addons/hot-reload", "clause": msg, "input": {"scenario": "addon script hot-reloading a helper module; helper edited between messages"},
+                         "observed": msg})
     n, ov = ownership_sequences(4)
     evals += n
     for msg in ov[:3]:
